@@ -193,6 +193,7 @@ type ProxyInst struct {
 	stopOnce sync.Once
 	fence    *dialFence
 	Tag      string // set by laboratories that mark every message of an instance
+	Seen     func() []string // optional: the requests the instance has received so far
 }
 
 // dialFence remembers the upstream connections of one proxy instance (the most recent few thousand).
